@@ -68,15 +68,16 @@ def majority(ctx):
     tr = call_trace(ctx, "SimpleMajorityElection")
     ctx.ob("RET", site, "returns only 'drift' or None", retset(tr) <= {"drift", None} and "drift" in retset(tr), str(retset(tr)))
     dets = P("detectors")
-    tests = [e for e in tr.of("test") if len(e.stack) == 1]
     if retset(tr) - {"drift", None}:
         return
-    if len(tests) != 1:
-        raise AnalysisError("SimpleMajorityElection: expected one verdict test, found %d (unrecognised shape)" % len(tests))
-    rdrift = [e for e in tr.returns() if len(e.stack) == 1 and e.value == const("drift")]
-    if len(rdrift) != 1:
-        raise AnalysisError("SimpleMajorityElection: expected one `return 'drift'` (unrecognised shape)")
-    cond = T.mk_and([p.cond for p in rdrift[0].pc])  # the verdict is drift exactly under these guards
+    # the verdict as one value: 'drift' under a condition, None otherwise (if / else, two returns, or a conditional expression)
+    leaves = list(q.ite_leaves(tr.retval)) if tr.retval is not None else []
+    dl = [cs for cs, l in leaves if l == const("drift")]
+    nl = [cs for cs, l in leaves if l == T.NONE]
+    if len(leaves) != 2 or len(dl) != 1 or len(nl) != 1:
+        raise AnalysisError("SimpleMajorityElection: the verdict is not `'drift' under one condition, else None` (unrecognised shape)")
+    cond = T.mk_and(list(dl[0]))  # the verdict is drift exactly under this condition
+    tests = [e for e in tr.returns() if len(e.stack) == 1][:1]
     # the vote count: len([d for d in D if vote(d)])  or  sum(1 for d in D if vote(d))
     counts = []
     for a in T.atoms_of(cond, "call"):
@@ -90,7 +91,7 @@ def majority(ctx):
     n_atom, cp = counts[0]
     member = atom(("iter", dets, [x for x in T.atoms_of(atom(cp), "iter")][0][2])) if list(T.atoms_of(atom(cp), "iter")) else None
     ok = member is not None and len(cp[4]) == 1 and is_vote(cp[4][0], "drift", lambda m: m == member) and (cp[1] != "list" or cp[2][0] == member)
-    ctx.ob("FRM", site, "votes are the members with drift_state == 'drift'", ok, q.short(atom(cp), 120), tests[0])
+    ctx.ob("FRM", site, "votes are the members with drift_state == 'drift'", ok, q.short(atom(cp), 120), tests[0] if tests else None)
     L_atom = ("call", "len", (dets,), ())
     others = [a for a in cond.atoms() if a not in (n_atom, L_atom)]
     bad = []
@@ -103,10 +104,8 @@ def majority(ctx):
     except q.Undecided as e:
         raise AnalysisError("SimpleMajorityElection: threshold not decidable by constant folding: %s" % e)
     ctx.ob("TAB", site, "drift iff strictly more than half of the members vote drift", not bad,
-           "cells (votes, members, verdict) that disagree: %s" % bad[:4], tests[0])
-    rnone = [e for e in tr.returns() if len(e.stack) == 1 and e.value == T.NONE]
-    ok = len(rnone) == 1 and T.mk_and([p.cond for p in rnone[0].pc]) == T.mk_not(cond)
-    ctx.ob("FRM", site, "None is returned exactly otherwise", ok, "")
+           "cells (votes, members, verdict) that disagree: %s" % bad[:4], tests[0] if tests else None)
+    ctx.ob("FRM", site, "None is returned exactly otherwise", T.mk_and(list(nl[0])) == T.mk_not(cond), "")
 
 
 def counting_loop(ctx, cname, ncounters):
@@ -125,7 +124,19 @@ def counting_loop(ctx, cname, ncounters):
     member = atom(("iter", P("detectors"), lid))
     init = {e.name: e.value for e in tr.of("local") if e.aug is None and e.name in counters and not any((p.cond.single_atom() or ("",))[0] == "inloop" for p in e.pc)}
     ctx.ob("IDIOM", site, "counters start at 0 before the loop", all(init.get(c) == const(0) for c in counters), str({k: q.short(v, 20) for k, v in init.items()}))
-    augs = [e for e in tr.of("local") if e.name in counters and e.aug is not None]
+    augs0 = [e for e in tr.of("local") if e.name in counters and e.aug is not None]
+    # `n += 1 if vote else 0` is `if vote: n += 1`: split a 0/1 conditional increment into its guarded unit increment
+    from ..evalr import virtual
+    augs = []
+    for e in augs0:
+        d = e.aug[1] if e.aug[0] == "Add" else None
+        leaves = list(q.ite_leaves(d)) if d is not None else []
+        if len(leaves) > 1 and all(l in (const(0), const(1)) for _c, l in leaves):
+            for cs_, l in leaves:
+                if l == const(1):
+                    augs.append(virtual(e, cs_, aug=("Add", const(1))))
+        else:
+            augs.append(e)
     ok = bool(augs) and all(e.aug == ("Add", const(1)) for e in augs)
     ctx.ob("IDIOM", site, "counters are only incremented by one (never decreased or reassigned)", ok and not [e for e in tr.of("local") if e.name in counters and e.aug is None and e.name not in init or (e.aug is None and any((p.cond.single_atom() or ("",))[0] == "inloop" for p in e.pc) and e.name in counters)], "")
     for e in augs:
